@@ -19,6 +19,7 @@ from vlib.core import VERIF
 from vlib.build import BuildError
 from tools.gen import bytecode as gen_bytecode
 from tools.gen import fiberframe as gen_fiberframe
+from tools.gen import compile as gen_compile
 from tools.gen.csrc import ExtractError
 from harness.C02 import gen, oracle
 
@@ -49,8 +50,9 @@ def run(ctx):
         ctx.build.boot()
         ctx.gen("Bytecode.lean", gen_bytecode.render(ctx.build.tree))
         ctx.gen("FiberFrame.lean", gen_fiberframe.render(ctx.build.tree))
+        ctx.gen("Compile.lean", gen_compile.render(ctx.build.tree))
     except ExtractError as e:
-        broken.append("translator tools/gen/bytecode.py: %s" % e)
+        broken.append("translator tools/gen (bytecode.py / fiberframe.py / compile.py): %s" % e)
         ctx.broken.append(broken[-1])
     except BuildError as e:
         ctx.violation("build-failed", {"kind": "build", "error": str(e)}, found=False, what="tree does not build")
